@@ -191,18 +191,26 @@ Definition mp4_next_free (ks : list mp4_atom) (i : nat) : option mp4_atom :=
   | Some q => if mp4_is_free q then Some q else None
   | None => None
   end.
-(* if index > 0: prev = meta.children[index - 1] ... ; then meta.children[index + 1] (IndexError -> None) *)
+(* meta.children[index + 1] first (IndexError -> None): that is where save() puts the padding, so a following save finds the
+   same region again; then, if index > 0, meta.children[index - 1] *)
+Definition mp4_prev_free (ks : list mp4_atom) (i : nat) : option mp4_atom :=
+  match i with
+  | O => None
+  | S j => match nth_error ks j with
+           | Some p => if mp4_is_free p then Some p else None
+           | None => None
+           end
+  end.
 Definition mp4_find_padding (meta : mp4_atom) : option mp4_atom :=
   match ma_kids meta with
   | None => None
   | Some ks =>
     match mp4_index N_ilst ks with
     | None => None
-    | Some O => mp4_next_free ks O
-    | Some (S j) =>
-      match nth_error ks j with
-      | Some p => if mp4_is_free p then Some p else mp4_next_free ks (S j)
-      | None => mp4_next_free ks (S j)
+    | Some i =>
+      match mp4_next_free ks i with
+      | Some q => Some q
+      | None => mp4_prev_free ks i
       end
     end
   end.
